@@ -210,7 +210,12 @@ pub fn run_with_monitor(l: &mut Local, prop: &'static str, lines: &[(Vec<u8>, bo
         explore::confirm_traces(&mut f, || explore::states_differ(&lines[..i], &lines[..=i], &explore::probe_set(&m)));
         let mut stop = false;
         for (props, sig, why) in f.drain(..) {
-            stop = true;
+            // after a finding the monitor and the code may have diverged: stop judging this history —
+            // except for a trace finding that belongs to another property (the monitor is still right
+            // about the group, and this property's own clauses further down must still be judged)
+            if props.contains(&prop) || !sig.starts_with("asm.trace-") {
+                stop = true;
+            }
             if props.contains(&prop) {
                 l.violation(&sig, || {
                     J::obj(vec![
@@ -1211,11 +1216,12 @@ pub fn c06(tier: Tier) -> Vec<Space> {
 }
 
 pub fn c17(tier: Tier) -> Vec<Space> {
+    // soak first: its long bursts need the behavioural-confirmation budget most
     vec![
+        soak("C17"),
         hist_space("C17", if tier == Tier::Quick { 4 } else { 5 }),
         two_parsers("C17"),
         chain("C17"),
         groups("C17"),
-        soak("C17"),
     ]
 }
